@@ -432,3 +432,9 @@ package builder
 //@   loop 0 modifies mapof(generatorDescs), smHas, wgOpen, alloc, structBuilderField.Name, structBuilderField.IndexPath, structBuilderGeneratorDesc.field, structBuilderGeneratorDesc.builderGenerator
 //@   loop 0 invariant 0 <= i
 //@   loop 0 decreases 0x10000 - i
+
+// Big numbers built from integers (C19): which math/big functions the conversion helpers of the
+// builder may call (enumeration). A *big.Float that takes an integer is created with new(big.Float)
+// - precision 0, so SetInt widens it to the integer's bit length and the value is exact; NewFloat
+// (precision 53) or SetPrec would round.
+//@ structural builder-bigfloat-from-integers: callees builder@builder.setBigFloatFromBigInt|builder.setPBigFloatFromBigInt|builder.setBigFloatFromInt|builder.setPBigFloatFromInt|builder.setBigFloatFromUint|builder.setPBigFloatFromUint into math/big: (*Float).SetInt (*Float).SetInt64 (*Float).SetUint64
